@@ -39,6 +39,18 @@ func isRevWrite(r *vs.Request) bool {
 	return r.Mutating() && r.Def.Resource == "controllerrevisions"
 }
 
+// isOwnershipEdit: an accepted update that changes nothing but metadata.ownerReferences
+// (adoption or release, which precede the hook calls).
+func isOwnershipEdit(r *vs.Request) bool {
+	if r.Verb != "update" || r.Pre == nil || r.Post == nil {
+		return false
+	}
+	a, b := stripServerFields(r.Pre), stripServerFields(r.Post)
+	delete(a["metadata"].(map[string]any), "ownerReferences")
+	delete(b["metadata"].(map[string]any), "ownerReferences")
+	return vs.JSONEqual(a, b)
+}
+
 func isChildWrite(e *Env, r *vs.Request) bool {
 	if !r.Mutating() || r.Def.Resource == "controllerrevisions" || r.Def.Resource == e.Scn.Cfg.ParentResource {
 		return false
@@ -228,6 +240,10 @@ func (e *Env) outcome() *rolloutOutcome {
 }
 
 // runRolloutWithCut replays the scenario's scripted history with one disturbance.
+// c09OrphanRevisions: the scenario strips the owner references of the parent's ControllerRevisions
+// once the rollout is under way (restored from a backup, say): the next sync has to adopt them again.
+var c09OrphanRevisions bool
+
 func runRolloutWithCut(scn *Scn, f Factory, edits []int, midSyncs int, ogStyle int, plan CutPlan, c *vs.Case) (*rolloutOutcome, error) {
 	env, err := NewEnv(scn, f)
 	if err != nil {
@@ -306,7 +322,7 @@ func runRolloutWithCut(scn *Scn, f Factory, edits []int, midSyncs int, ogStyle i
 				c.Class("hook-call-of-one-revision-failed")
 				// a sync in which any revision's hook failed must not act on the others' answers
 				for _, r := range t.Reqs {
-					if isChildWrite(env, r) || isRevWrite(r) {
+					if isChildWrite(env, r) || (isRevWrite(r) && !isOwnershipEdit(r)) {
 						return t, withTrace(vs.Violf("C09/acted-on-partial-hook-results", "the hook call for %s failed, yet the sync issued %s", map[string]string{"hook-latest": "the latest parent state", "hook-old": "a superseded revision"}[plan.Kind], r.String()), t)
 					}
 				}
@@ -388,6 +404,15 @@ func runRolloutWithCut(scn *Scn, f Factory, edits []int, midSyncs int, ogStyle i
 			}
 		}
 	}
+	if c09OrphanRevisions {
+		for _, ro := range env.W.Sim.ListAll("controllerrevisions") {
+			if ControllerOf(ro) == env.ParentUID {
+				env.W.Sim.ExtUpdate("controllerrevisions", metaStr(ro, "namespace"), metaStr(ro, "name"), func(o map[string]any) {
+					delete(o["metadata"].(map[string]any), "ownerReferences")
+				})
+			}
+		}
+	}
 	if nn := len(scn.Prog.DesiredAll(env.W.Sim, env.Parent())); nn > n {
 		n = nn
 	}
@@ -438,9 +463,20 @@ func PropC09(c *vs.Case, f Factory, o RolloutOpts) error {
 		midSyncs = c.Int(3)
 		c.Class("parent-deleted-mid-rollout")
 	}
+	dying := false
+	for _, e := range edits {
+		if e == 9 {
+			dying = true // a parent pending deletion adopts nothing: orphaned revisions would stay orphaned
+		}
+	}
+	c09OrphanRevisions = !o.Small && !dying && c.Prob(1, 5)
+	if c09OrphanRevisions {
+		c.Class("revisions-orphaned-mid-rollout")
+	}
+	orphaned := c09OrphanRevisions
 	cur := CutPlan{Sync: -1}
 	c.Describe(func() any {
-		return map[string]any{"scenario": scn, "edits": edits, "midSyncs": midSyncs, "ogStyle": ogStyle, "cut": cur}
+		return map[string]any{"scenario": scn, "edits": edits, "midSyncs": midSyncs, "ogStyle": ogStyle, "cut": cur, "revisionsOrphanedMidRollout": orphaned}
 	})
 	key := fmt.Sprint(c.Trace())
 	base := c09BaseCache[key]
